@@ -39,6 +39,7 @@ typedef struct wl_rt {
 #define WL_RT_PRIVATE_ONLY 16 /* every pool served by exactly one ES */
 #define WL_RT_BASIC_ONLY 32   /* BASIC schedulers only */
 #define WL_RT_BUILTIN_POOLS 128 /* no user-defined pools (the workload looks into built-in pool internals) */
+#define WL_RT_PREDEF_SCHEDS 256 /* no user-defined scheduler */
 #define WL_RT_NO_TOPO2 64     /* no stream other than the primary has two pools (unbounded yield loops cannot starve a lower-priority pool) */
 
 extern const char *wl_sched_names[];
@@ -48,7 +49,15 @@ void wl_env_swarm(void);
 void wl_rt_start(wl_rt *rt, int flags);
 void wl_rt_stop(wl_rt *rt); /* joins+frees secondary ESs, ABT_finalize, ledger check */
 ABT_pool wl_any_pool(wl_rt *rt);
+/* debugging aid for replays: WL_DEBUG=1 in the environment prints workload-level events */
+extern int wl_debug;
+#define WL_DBG(...)                                                            \
+    do {                                                                       \
+        if (wl_debug)                                                          \
+            fprintf(stderr, __VA_ARGS__);                                      \
+    } while (0)
 int wl_pool_is_user(ABT_pool pool);
+ABT_sched wl_make_user_sched(int n, ABT_pool *pools);
 int wl_thread_is_in_pool(ABT_thread th);
 
 /* spin until *flag != 0 from a non-ULT context (external thread) */
